@@ -9,6 +9,13 @@ WL_VERIFY_LOOP = {"secp256k1_whitelist_verify": {"for (i = 0; i < sig->n_keys; i
     "assigns": "i, __CPROVER_object_whole(s)",
     "invariants": "i <= sig->n_keys && (verif_wl_bad ==> i <= verif_wl_gi) && (verif_wl_gi < i ==> (s[verif_wl_gi].d[0] == verif_wl_sx.d[0] && s[verif_wl_gi].d[1] == verif_wl_sx.d[1] && s[verif_wl_gi].d[2] == verif_wl_sx.d[2] && s[verif_wl_gi].d[3] == verif_wl_sx.d[3]))",
     "decreases": "sig->n_keys - i"}}}
+KM = "harness/C16/keys_msg.c"
+KM_REPL = ["secp256k1_sha256_write", "secp256k1_sha256_finalize", "secp256k1_gej_add_ge_var", "secp256k1_whitelist_tweak_pubkey"]
+KM_FUNCS = ["secp256k1_whitelist_compute_keys_and_message", "secp256k1_pubkey_load", "secp256k1_eckey_pubkey_serialize33", "secp256k1_gej_set_ge"]
+KM_LOOP = {"secp256k1_whitelist_compute_keys_and_message": {"for (i = 0; i < n_keys; i++)": {
+    "assigns": "i, __CPROVER_object_whole(c), sha, __CPROVER_object_whole(keys), g_h_fresh, g_w_hit, g_w_byte, g_w_started, g_w_s0, g_w_s7, g_w_b0, g_illegal",
+    "invariants": "0 <= i && i <= n_keys && 0 <= g_illegal && g_illegal <= 2 * i + 1 && sha.bytes == 33 + 66 * (unsigned long)i && g_fin_n == 0 && g_h_fresh == 0 && g_w_started == 1 && g_w_b0 == 0 && g_w_s0 == 0x6a09e667 && g_w_s7 == 0x5be0cd19 && (g_wpos < sha.bytes ==> (g_w_hit == 1 && g_w_byte == verif_wl_expect)) && (g_wpos >= sha.bytes ==> g_w_hit == 0)",
+    "decreases": "n_keys - i"}}}
 UNITS = [
     U("C16.sig_parse", ["C16", "C07"], CODEC, "h_wl_parse", replace=["memcpy"], defs=["EL_CONTENT"],
       functions=["secp256k1_whitelist_signature_parse", "secp256k1_whitelist_signature_n_keys"], timeout=600, min_obl=20, unwind=10,
@@ -19,6 +26,13 @@ UNITS = [
     U("C16.sig_roundtrip", ["C16"], CODEC, "h_wl_roundtrip", replace=["memcpy"],
       functions=["secp256k1_whitelist_signature_parse", "secp256k1_whitelist_signature_serialize"], timeout=900, min_obl=20, unwind=10,
       note="serialize(parse(b)) == b for every accepted b (ghost byte index)"),
+    U("C16.keys_msg", ["C16", "C07"], KM, "h_wl_keys_msg", replace=KM_REPL, assumed=["secp256k1_gej_add_ge_var", "secp256k1_whitelist_tweak_pubkey"],
+      loop_contracts=KM_LOOP, functions=KM_FUNCS, timeout=1800, min_obl=30, unwind=34, tier="thorough",
+      closed_by="loop contract over the key list (engine-supplied, no /repo edit): stream length 33 + 66 i and the watched stream byte as invariant, decreases clause",
+      note="every list length 0..255; stream-level hash contract (hash_log.h); a key object with x = 0 makes pubkey_load report illegal use (tolerated here, see keys_msg_b2)"),
+    U("C16.keys_msg_b2", ["C16", "C07"], KM, "h_wl_keys_msg", replace=KM_REPL, assumed=["secp256k1_gej_add_ge_var", "secp256k1_whitelist_tweak_pubkey"],
+      defs=["KM_MAX=2", "KM_VALID_ALL"], functions=KM_FUNCS, timeout=900, min_obl=30, unwind=34, unwindset=["secp256k1_whitelist_compute_keys_and_message.0:4"], bounded="n_keys<=2",
+      note="unwound list of at most 2 pairs with ALL key objects valid: additionally no callback"),
     U("C16.sign_key_gate", ["C16"], "harness/C16/tweaked_privkey.c", "h_wl_tweaked_privkey",
       replace=["secp256k1_ecmult_gen", "secp256k1_whitelist_hash_pubkey", "secp256k1_scalar_mul"],
       assumed=["secp256k1_ecmult_gen", "secp256k1_whitelist_hash_pubkey", "secp256k1_scalar_mul"],
